@@ -145,6 +145,19 @@ static bool mode_ntop_v4() {
         }
     cls("ipv4_shapes");
     g_samples.push_back("ntop 0:0:0:0:0:ffff:7f00:1");
+    // addresses under prefixes that some printers give a notation of their own (NAT64 64:ff9b::/96, 6to4, Teredo,
+    // link-local, multicast): here they are ordinary IPv6 addresses, whatever the groups after the prefix hold
+    static const uint16_t pre[][2] = {{0x64, 0xff9b}, {0x64, 0xff9a}, {0x2002, 0xc000}, {0x2001, 0}, {0xfe80, 0}, {0xff02, 0}, {0x64, 0}};
+    static const uint16_t mid[] = {0, 1, 0xffff};
+    static const uint16_t low[] = {0, 0xc000, 0x0207, 0xffff};
+    for (unsigned q = 0; q < sizeof(pre) / sizeof(pre[0]); q++)
+        for (int a = 0; a < 3; a++) for (int b = 0; b < 3; b++) for (int c = 0; c < 3; c++) for (int d = 0; d < 3; d++)
+            for (int e = 0; e < 4; e++) for (int f = 0; f < 4; f++) {
+                uint16_t g[8] = {pre[q][0], pre[q][1], mid[a], mid[b], mid[c], mid[d], low[e], low[f]};
+                if (!check_ntop(g)) return false;
+                n_nontrivial++;
+            }
+    cls("well_known_prefixes");
     return true;
 }
 
@@ -274,6 +287,13 @@ static bool mode_pton_grammar() {
             std::string t;
             for (int q = 0; q < k; q++) { net[q] = (q % 2) ? gv[j] : gv[i]; snprintf(b, sizeof b, "%x:", net[q]); t += b; }
             if (!expect_mask(t + "*", net, 16 * k, true)) return false;
+            // short form: the leading groups only, then the length ("2001:db8/32", like "192.168/16")
+            if (k >= 2) {
+                std::string sf = t.substr(0, t.size() - 1);
+                static const int lens[] = {0, 1, 7, 16, 17, 32, 33, 48, 64, 96, 112, 127, 128};
+                for (unsigned li = 0; li < sizeof(lens) / sizeof(lens[0]); li++)
+                    if (!expect_mask(sf + "/" + std::to_string(lens[li]), net, lens[li], true)) return false;
+            }
         }
     }
     // mixed notation: hex groups followed by a dotted quad, with all six groups written out or with "::" somewhere;
